@@ -1,5 +1,27 @@
-"""human-readable decoding of a C11 case line / verdict for replays"""
-import struct
+"""bin/plugins/C11.py — C11 (QuantileCI): human-readable decoding of case lines / verdicts for replays,
+and the M2 stage of the n > 30 branch.
+
+M2 (kernel-certified on a sample of the run's op-1 cases whose Sigma is a short dyadic rational, i.e.
+n q (1-q) a perfect square — harness stream (b6)): with mu = norm.Mu and sigma = norm.Sigma as exact
+rationals and Phi the normal CDF of coq/RealSpec/Normal.v,
+    Rabs (Phi mu sigma l1        - alpha)    <= 1e-9     l1 = norm.InvCDF(alpha) really is the alpha-quantile
+    Rabs (Phi mu sigma (r0-1/2)  - CDF_hi)   <= 1e-9     the CDF values the band masses are differences of
+    Rabs (Phi mu sigma (la-1/2)  - CDF_lo)   <= 1e-9     (la = left end used, r0 = right end before the trim)
+    Rabs (Phi mu sigma (r0-3/2)  - CDF_hi1)  <= 1e-9
+The comparator (coq/Check/C11.v) ties mu, sigma^2 to n q, n q (1-q), the band masses to differences of
+these CDF values and Confidence to the band mass; together: the band is the outward rounding of the
+central interval of content c of Normal(nq, nq(1-q)) and Confidence is its normal mass to 2e-9.
+Cases outside the certified window are compared with the UNCERTIFIED mpmath reference on a sample.
+"""
+import os, sys, json, random, struct
+from fractions import Fraction
+
+sys.path.insert(0, os.path.dirname(os.path.dirname(os.path.abspath(__file__))))
+import m2  # noqa: E402
+
+PID = "C11"
+TOL = Fraction(1, 10 ** 9)
+REQ = "From MM Require Import RealSpec.Normal Proofs.NormalR Proofs.M2Lemmas."
 
 
 def _f(bits):
@@ -28,9 +50,9 @@ def describe(line, verdict, case_json):
             d["call"] = "QuantileCI(%d, %r, %r)" % (n, q, c)
             o = line[-6:]
             d["observed"] = dict(N=o[0], Quantile=_f(o[1]), Confidence=_f(o[2]), LoOrder=o[3], HiOrder=o[4], Ambiguous=bool(o[5]))
-            d["oracle"] = dict(Mu=_f(line[5]), l1=_f(line[6]), r1=_f(line[7]), l0=line[8], r0=line[9], band=_f(line[10]), band_biased=_f(line[11]), cdf_l1=_f(line[12]))
+            d["oracle"] = dict(Mu=_f(line[5]), Sigma=_f(line[6]), l1=_f(line[7]), r1=_f(line[8]), l0=line[9], r0=line[10], band=_f(line[11]), band_biased=_f(line[12]), cdf_l1=_f(line[13]))
             if code == 2:
-                d["failing_stage"] = {0: "N/Quantile", 1: "c>=1 short cut", 2: "mu", 3: "r1", 4: "band masses", 5: "rounded band", 6: "CDF(l1) vs alpha", 7: "result", 8: "non-finite oracle value", 9: "order claim"}.get(pos, pos)
+                d["failing_stage"] = {0: "N/Quantile", 1: "c>=1 short cut", 2: "mu / sigma", 3: "r1", 4: "band masses", 5: "rounded band", 6: "CDF(l1) vs alpha", 7: "result", 8: "non-finite oracle value", 9: "order claim"}.get(pos, pos)
                 if pos == 7 and len(verdict) >= 8:
                     d["expected"] = dict(LoOrder=verdict[3], HiOrder=verdict[4], Ambiguous=bool(verdict[5]), Confidence=verdict[6] / verdict[7])
         else:
@@ -39,3 +61,194 @@ def describe(line, verdict, case_json):
     except Exception as e:
         d["describe_error"] = repr(e)
     return d
+
+
+# ------------------------------------------------------------------ M2 stage
+def _alpha(c):
+    a = (1 - c) / 2
+    return Fraction(1, 2) if a > Fraction(1, 2) else a
+
+
+def parse_op1(ints):
+    X = m2.bits_to_x
+    return dict(n=ints[2], q=X(ints[3]), c=X(ints[4]), mu=X(ints[5]), sigma=X(ints[6]), l1=X(ints[7]), r1=X(ints[8]),
+                l0=ints[9], r0=ints[10], b1=X(ints[11]), b2=X(ints[12]), cdf_l1=X(ints[13]), ch=X(ints[14]), cl=X(ints[15]), ch1=X(ints[16]))
+
+
+def points(d):
+    """the four (name, abscissa, observed/required value) of one case"""
+    la = d["r0"] - 1 if d["r0"] <= d["l0"] else d["l0"]
+    return [("alpha", d["l1"], _alpha(d["c"])),
+            ("cdf_hi", Fraction(2 * d["r0"] - 1, 2), d["ch"]),
+            ("cdf_lo", Fraction(2 * la - 1, 2), d["cl"]),
+            ("cdf_hi1", Fraction(2 * d["r0"] - 3, 2), d["ch1"])]
+
+
+def collect(lines):
+    cert, refonly = [], []
+    for ci, ln in enumerate(lines):
+        toks = ln.split("#")[0].split()
+        if len(toks) < 17 or toks[0] != "b" or toks[1] != "1":
+            continue
+        d = parse_op1([int(t, 16) for t in toks])
+        num = m2.is_num
+        if not all(num(d[k]) for k in ("q", "c", "mu", "sigma", "l1", "r1", "ch", "cl", "ch1")):
+            continue
+        if not (d["c"] < 1 and d["sigma"] > 0):
+            continue
+        sg, mu = d["sigma"], d["mu"]
+        simple = sg.denominator <= (1 << 40) and sg.numerator <= (1 << 40) and mu.denominator <= (1 << 30) and d["c"].denominator <= (1 << 64)
+        central = all(abs((x - mu) / sg) <= 10 for _, x, _ in points(d))      # [integral] is fast and conclusive there
+        (cert if simple and central else refonly).append((ci, d))
+    return cert, refonly
+
+
+def std_prelude(mu, sigma, x):
+    """Phi mu sigma x -> 1/2 + RInt (standard density) 0 z with z = (x-mu)/sigma as ONE literal"""
+    if mu == 0 and sigma == 1:
+        return "unfold Phi, phi."
+    z = (x - mu) / sigma
+    return ("rewrite (Phi_standard %s %s %s) by lra. replace ((%s - %s) / %s) with %s by (field; lra). unfold Phi, phi."
+            % (m2.rlit(mu), m2.rlit(sigma), m2.rlit(x), m2.rlit(x), m2.rlit(mu), m2.rlit(sigma), m2.rlit(z)))
+
+
+def make_goal(gid, ci, d, name, x, obs):
+    mu, sigma = d["mu"], d["sigma"]
+    info = dict(case_index=ci, point=name, n=d["n"], q=m2.fstr(d["q"]), c=m2.fstr(d["c"]), mu=m2.fstr(mu), sigma=m2.fstr(sigma), x=m2.fstr(x))
+    expr = "Phi %s %s %s" % (m2.rlit(mu), m2.rlit(sigma), m2.rlit(x))
+    if x == mu:
+        return m2.Goal(gid, expr, obs, TOL, requires=REQ, prelude="rewrite Phi_centre.", ref="mpf(1)/2", info=info, finish="interval")
+    return m2.Goal(gid, expr, obs, TOL, requires=REQ, prelude=std_prelude(mu, sigma, x),
+                   ref="ncdf(%s)" % m2.pylit((x - mu) / sigma), info=info, finish="integral with (%(gopt)s)")
+
+
+def ref_values(zs, nproc=8):
+    """uncertified Phi(z): beyond 40 standard deviations the value is 0 or 1 to 1e-300 (and mpmath's
+    1e-300000000 would not fit a Fraction)"""
+    out = [None] * len(zs)
+    idx = []
+    for i, z in enumerate(zs):
+        if z < -40:
+            out[i] = Fraction(0)
+        elif z > 40:
+            out[i] = Fraction(1)
+        else:
+            idx.append(i)
+    vals = m2.ref_eval_parallel(["ncdf(%s)" % m2.pylit(zs[i]) for i in idx], dps=30, nproc=nproc, timeout=300) if idx else []
+    for i, v in zip(idx, vals):
+        out[i] = v
+    return out
+
+
+def extra(ctx):
+    tier, seed, lines = ctx["tier"], ctx["seed"], ctx["lines"]
+    rnd = random.Random(seed * 1009 + 11)
+    cert, refonly = collect(lines)
+    ncases = 6 if tier == "quick" else 80
+    nref = 300 if tier == "quick" else 4000
+    # ---- uncertified reference on a sample of all n > 30 cases (any sigma)
+    allc = cert + refonly
+    rnd.shuffle(allc)
+    ref_items = [(ci, d, name, x, obs) for ci, d in allc[:nref] for name, x, obs in points(d)]
+    vals = ref_values([(x - d["mu"]) / d["sigma"] for ci, d, name, x, obs in ref_items], min(ctx.get("ncpu", 8), 12))
+    bad_ref, n_ref, n_fail = [], 0, 0
+    for it, v in zip(ref_items, vals):
+        if v is None:
+            n_fail += 1
+            continue
+        n_ref += 1
+        if abs(v - it[4]) > TOL:
+            bad_ref.append((it, v))
+    # ---- certificate goals: cases failing the reference first, then a sample spread over c
+    chosen = []
+    seen = set()
+    for it, v in bad_ref:
+        if it[0] not in seen and any(it[0] == ci for ci, _ in cert):
+            seen.add(it[0])
+            chosen.append((it[0], it[1]))
+    pool = sorted(cert, key=lambda t: (t[1]["c"], rnd.random()))
+    if pool:
+        step = max(1, len(pool) // max(1, ncases))
+        off = rnd.randrange(step)
+        for k in range(off, len(pool), step):
+            if len(chosen) >= ncases + len(seen):
+                break
+            if pool[k][0] not in seen:
+                seen.add(pool[k][0])
+                chosen.append(pool[k])
+    goals, gitems = [], []
+    for ci, d in chosen:
+        for name, x, obs in points(d):
+            goals.append(make_goal(str(len(goals)), ci, d, name, x, obs))
+            gitems.append((ci, d, name, x, obs))
+    summ = m2.run_goals(goals, PID, ncpu=ctx.get("ncpu", 8), timeouts=(45, 150) if tier == "quick" else (60, 300)) if goals else \
+        dict(goals=0, certified=0, refuted=0, undecided=0, seconds=0.0)
+    violations, kinds, decided = [], {}, set()
+    und = [g for g in goals if g.result["status"] == "undecided"]
+    und_ref = dict(zip([id(g) for g in und], m2.ref_eval([g.ref for g in und], dps=30, timeout=120))) if und else {}
+    for g, it in zip(goals, gitems):
+        st = g.result["status"]
+        kinds.setdefault(it[2], {}).setdefault(st, 0)
+        kinds[it[2]][st] += 1
+        if st in ("certified", "refuted"):
+            decided.add((it[0], it[2]))
+        if st == "refuted":
+            rp = m2.write_replay(PID, "m2", dict(case=json.loads(lines[it[0]].split("#", 1)[1]), goal=g.statement(False), refuted_by=g.statement(True),
+                                                  certificate=g.result["file"], info=g.info, observed=m2.fstr(it[4]),
+                                                  explanation="the complementary goal tol < |Phi - value| was PROVED by coqc (Coq-Interval): the implementation's normal quantile / CDF value used by QuantileCI differs from the normal distribution Normal(mu, sigma) by more than 1e-9",
+                                                  seed=seed, tier=tier))
+            violations.append(dict(replay=rp, suffix=""))
+        elif st == "undecided":
+            v = und_ref.get(id(g))
+            if v is not None and abs(g.obs - v) > g.tol and not any(b[0][0] == it[0] and b[0][2] == it[2] for b in bad_ref):
+                bad_ref.append((it, v))
+    n_bad = 0
+    for it, v in bad_ref:
+        if (it[0], it[2]) in decided:
+            continue
+        n_bad += 1
+        if n_bad > 5:
+            continue
+        rp = m2.write_replay(PID, "ref", dict(case=json.loads(lines[it[0]].split("#", 1)[1]), info=dict(point=it[2], x=m2.fstr(it[3])),
+                                               observed=m2.fstr(it[4]), reference=m2.fstr(v), tolerance=m2.fstr(TOL),
+                                               explanation="a normal quantile / CDF value used by QuantileCI differs from the UNCERTIFIED mpmath reference by more than 1e-9 (outside the window the kernel certifies, or the goal was undecided)",
+                                               seed=seed, tier=tier))
+        violations.append(dict(replay=rp, suffix=" decided-by-uncertified-reference"))
+    return dict(obligations=len(goals), discharged=summ["certified"], certified_goals=summ["certified"], refuted_goals=summ["refuted"],
+                undecided_goals=summ["undecided"], certified_cases=len(chosen), certifiable_cases=len(cert), certified_by_point=kinds,
+                uncertified_reference_values=n_ref, uncertified_reference_mismatches=n_bad,
+                uncertified_reference_failed_evaluations=n_fail, m2_seconds=summ["seconds"], violations=violations)
+
+
+def replay(rp, ctx):
+    import subprocess
+    case = rp["case"]
+    r = subprocess.run([ctx["harness"], "run", PID], input=json.dumps(case) + "\n", capture_output=True, text=True, env=ctx["env"])
+    lines = [l for l in r.stdout.split("\n") if l.strip() and not l.startswith("!")]
+    if not lines:
+        print("harness rejected the replay case:", r.stdout[:300])
+        return 2
+    cert, refonly = collect(lines)
+    items = cert + refonly
+    if not items:
+        print("no n > 30 case with c < 1 and sigma > 0 in the replay")
+        return 2
+    ci, d = items[0]
+    want = (rp.get("info") or {}).get("point")
+    pts = [p for p in points(d) if want is None or p[0] == want] or points(d)
+    print("case      :", json.dumps(case))
+    bad = False
+    for name, x, obs in pts:
+        status = None
+        if cert:
+            g = make_goal("replay", ci, d, name, x, obs)
+            m2.run_goals([g], PID + "r", ncpu=1, timeouts=(60, 200))
+            status = g.result["status"]
+            print("goal      :", g.statement(False))
+            print("kernel    :", status, g.result["log"])
+        v = ref_values([(x - d["mu"]) / d["sigma"]], 1)[0]
+        badref = v is not None and abs(v - obs) > TOL
+        print("%-10s: value %s  reference (uncertified) %s" % (name, m2.fstr(obs), m2.fstr(v) if v is not None else "n/a"))
+        bad = bad or status == "refuted" or (status != "certified" and badref)
+    print("RESULT    :", "still fails on the current tree" if bad else "passes on the current tree")
+    return 1 if bad else 0
